@@ -277,6 +277,8 @@ func recDefinition(d types.ServiceDefinition) string {
 	return fmt.Sprintf("D %s %s", wordOrDash(d.Name), hexOrDash(d.Author))
 }
 
+// recBinding renders a binding; ok is false (the caller prints a garbage line) when the pricing text does not parse or
+// the stored deposit is not a canonical coin list (e.g. a zero-amount coin instead of the empty list).
 func recBinding(b types.ServiceBinding) (string, bool) {
 	price, promT, promV, ok := parsePricingText(b.Pricing)
 	if !ok {
@@ -284,7 +286,7 @@ func recBinding(b types.ServiceBinding) (string, bool) {
 	}
 	return fmt.Sprintf("B %s %s %s %s %s %s %d %s %s %s",
 		wordOrDash(b.ServiceName), hexOrDash(b.Provider), hexOrDash(b.Owner), b.Deposit.AmountOf(stakeDenom), bit(b.Available),
-		timeNs(b.DisabledTime), b.QoS, price, promT, promV), ok
+		timeNs(b.DisabledTime), b.QoS, price, promT, promV), ok && b.Deposit.IsValid()
 }
 
 func recWithdrawAddr(owner, addr []byte) string {
